@@ -29,6 +29,11 @@ fn dispatch(sx: &Sx) -> String {
         "parse" => modes::parse::parse(args),
         "lex" => modes::lex::lex(args),
         "short" => modes::lex::short(args),
+        "int" => modes::value::int(args),
+        "bool" => modes::value::boolean(args),
+        "possible" => modes::value::possible(args),
+        "enum" => modes::value::enumeration(args),
+        "store" => modes::value::store(args),
         m => format!("unknown-mode {m}"),
     }
 }
